@@ -202,7 +202,7 @@ Proof. apply fx_filter_inv. Qed.
 
 Lemma fx_init_pass_inv l : ∀ seen f extra,
   FxInv f → (∀ i, i ∈ f.*2 → i ∈ seen) →
-  FxInv (fx_init_pass true l seen f extra).1.
+  FxInv (fx_init_pass true true l seen f extra).1.
 Proof.
   induction l as [|[v i] r IH]; intros seen f extra HI Hseen; simpl; [done|].
   destruct (accept true i seen) eqn:Hacc.
@@ -228,14 +228,19 @@ Lemma fold_fx_set_inv extra : ∀ f, FxInv f → FxInv (fold_left (λ f v, fx_se
 Proof. induction extra as [|v r IH]; intros f H; simpl; [done|]. apply IH. by apply fx_set_inv. Qed.
 
 (** With the positivity test in the constructor, every fixup table has distinct positive indexes. *)
-Theorem fx_init_inv l : FxInv (fx_init true l).
+Theorem fx_init_inv l : FxInv (fx_init true true l).
 Proof.
   unfold fx_init. pose proof (fx_init_pass_inv l [] [] []) as H.
-  destruct (fx_init_pass true l [] [] []) as [f extra]. apply fold_fx_set_inv. apply H.
+  destruct (fx_init_pass true true l [] [] []) as [f extra]. apply fold_fx_set_inv. apply H.
   - split; [constructor|]. intros i Hi. inversion Hi.
   - intros i Hi. inversion Hi.
 Qed.
 
 (** Without it (the pinned tree) a parsed "replace00" keeps index 0. *)
-Theorem fx_init_refuted_without_positive_test : (fx_init false [(7, 0)]).*2 = [0].
+Theorem fx_init_refuted_without_positive_test : (fx_init false true [(7, 0)]).*2 = [0].
+Proof. vm_compute. reflexivity. Qed.
+
+(** Re-inserting a rejected value at once, before the later values of the list have claimed their indexes, lets a
+    later value claim the index just given away: replace02 a, replace02 b, replace01 c -> b and c share index 1. *)
+Theorem fx_init_refuted_without_deferral : (fx_init true false [(10, 2); (11, 2); (12, 1)]).*2 = [2; 1; 1].
 Proof. vm_compute. reflexivity. Qed.
